@@ -10,6 +10,7 @@ import (
 	"sort"
 	"strconv"
 	"strings"
+	"time"
 
 	coraza "github.com/corazawaf/coraza/v3"
 	"github.com/corazawaf/coraza/v3/experimental/plugins/plugintypes"
@@ -484,6 +485,8 @@ func run(c *runner.Ctx) {
 		defer scen.Close(w)
 		retVectors := map[string]bool{}
 		res := bfs.Search(len(opNames), depth, 200000, func(h []int) (string, bool) {
+			stopWatch := c.Watch("call-history", kase{cf, append([]int{}, h...)}, 2*time.Minute)
+			defer stopWatch()
 			key, pan := execute(w, cf, h, false, func(sig, text string) {
 				c.Violation(sig, fmt.Sprintf("configuration:\n%scall history: %v\n%s", conf, histNames(h), text), kase{cf, append([]int{}, h...)})
 			})
